@@ -4,7 +4,7 @@
 # the repository's suite still passes) and files it under /verif/seeded/<property>-<N>/.
 set -u
 src="$1"; n="$2"; pid="$3"; needs="${4:-}"
-sid="$pid-$n"
+sid="$pid-${5:-$n}"   # optional 5th argument: the number the seed is filed under (rounds >= 10: 101, 102, ...)
 wt=$(mktemp -d /tmp/confirm_${sid}_XXXX)
 rmdir "$wt"
 git -C /repo worktree add -q "$wt" HEAD || exit 2
